@@ -35,7 +35,49 @@ def gen_opts(rng, tier):
     )
 
 
+def _strong_tables(rng):
+    """Every tabulated element with a table that depends STRONGLY on both coordinates (affine in io and vi, so that
+    every triangulation agrees) and a large series drop across it: looking the table up at any other voltage or
+    current than (input voltage, output current) shows in the row."""
+    sgn = rng.choice([1, 1, -1])
+    V = G.sig(rng.uniform(14.0, 30.0))
+    I = G.sig(rng.uniform(0.4, 1.5))
+    vis = [2.0, 12.0, 40.0]
+    ios = [0.0, 0.5, 3.0]
+
+    def tab(z, a0, bx, cy):
+        return {"vi": [sgn * v for v in vis] if rng.random() < 0.3 else list(vis), "io": list(ios),
+                z: [[G.sig(a0 + bx * x + cy * v, 6) for x in ios] for v in vis]}
+
+    def c(name, kind, args, parents):
+        return {"name": name, "kind": kind, "args": args, "parents": parents, "group": "", "rail": "", "limits": None, "phase": None}
+
+    comps = [c("S", "Source", {"vo": sgn * V, "rs": 0.0}, [])]
+    par = "S"
+    order = rng.sample(["Rectifier", "PSwitch", "VLoss", "LinReg"], rng.randint(1, 3))
+    for k, kind in enumerate(order):
+        n = "T%d" % k
+        if kind == "Rectifier":
+            a = {"rs": G.sig(rng.uniform(0.8, 2.0)), "ig": tab("ig", 1e-3, 2e-3, 6e-4), "iq": 1e-5}
+        elif kind == "PSwitch":
+            a = {"rs": G.sig(rng.uniform(1.0, 3.0)), "ig": tab("ig", 2e-3, 1e-3, 5e-4)}
+        elif kind == "VLoss":
+            a = {"vdrop": tab("vdrop", 0.3, 0.4, 0.04)}
+        else:
+            a = {"vo": sgn * 3.3, "vdrop": 0.3, "ig": tab("ig", 1e-3, 3e-3, 7e-4)}
+        comps.append(c(n, kind, a, [par]))
+        par = n
+        if kind == "LinReg":
+            break
+    comps.append(c("L", "ILoad", {"ii": I}, [par]))
+    return {"name": "strong-tables", "comps": comps, "phases": {}, "_meta": {"polarity": "neg" if sgn < 0 else "pos"}}
+
+
 def gen(rng, i, tier):
+    if i % 10 == 7:
+        case = {"spec": _strong_tables(rng), "tol": 1e-9, "ta": 25.0}
+        case.update(_rows.random_call_context(rng))
+        return case
     spec = gen_system(rng, tier)
     spec = _mux_layout(rng, spec)
     tight = rng.random() < 0.4
